@@ -429,7 +429,8 @@ struct Exec {
 		uint64_t consumed = foundNul ? j + 1 : j;
 		if (a.kind == Kind::File && !ok) return;
 		std::string got, what;
-		Out o = call([&] { got = a.obj->ReadNullTerminatedString(static_cast<size_t>(maxc)); }, &what);
+		Out o = call([&] { got = maxc == SIZE_MAX ? a.obj->ReadNullTerminatedString() : a.obj->ReadNullTerminatedString(static_cast<size_t>(maxc)); }, &what); // default argument = unbounded
+		if (maxc == SIZE_MAX) ctx.count("probe.cstr_default_bound");
 		std::string desc = "NUL-terminated read max=" + std::to_string(maxc) + " at pos " + std::to_string(a.pos) + "/" + std::to_string(a.len);
 		requireOutcome(o, ok, "C12.typed-size", "C12.typed-refuse", desc, what);
 		if (ok) {
